@@ -995,9 +995,18 @@ def classify_divergence(w, live):
             restarts.setdefault(int(t[1]), []).append(i)
         if t[0] == "deliver" and res.split()[0] == "commit":
             applied_at.setdefault((int(t[1]), int(t[2])), i)
+    last_tok = {}
     for i, (cmd, res, fp) in enumerate(w.trace):
         t = cmd.split()
-        if t[0] == "deliver" and res.split()[0] in ("unprocessable", "previously_failed"):
+        c0 = int(t[1]) if len(t) > 1 and t[1].isdigit() and t[0] not in ("rewrap", "retag") else None
+        f0 = parse_fp(fp) if c0 is not None else None
+        tok_before = last_tok.get(c0)
+        if c0 is not None and f0 is not None:
+            last_tok[c0] = (f0["epoch"], f0["token"])
+        # the better commit is refused — or it is the client's OWN commit, answered `commit` (return_own_commit) WITHOUT moving the client
+        own_noop = (t[0] == "deliver" and res.split()[0] == "commit" and commits.get(int(t[2]), {}).get("sender") == c0
+                    and f0 is not None and tok_before == (f0["epoch"], f0["token"]))
+        if t[0] == "deliver" and (res.split()[0] in ("unprocessable", "previously_failed") or own_noop):
             c, m = int(t[1]), int(t[2])
             em = commits.get(m)
             if em is None:
